@@ -19,6 +19,8 @@ MODS = {
     'pa/sub.py': 'y = 2\nz = 3\n_hidden = 4\n',
     'pb.py': 'from pa.sub import *\nw = z\n',
     'pall.py': '__all__ = ["_listed", "shown"]\n_listed = 1\nshown = 2\nnot_listed = 3\n',
+    'pall2.py': 'narrow = 0\nif narrow:\n    __all__ = ["alpha"]\nelse:\n    __all__ = ["alpha", "beta"]\nalpha = 1\nbeta = 2\n',
+    'pall3.py': '__all__ = ["alpha"]\nalpha = 1\nbeta = 2\ngamma = 3\nif alpha:\n    __all__ = ["alpha", "beta"]\n__all__ += ["gamma"]\n',
     'pkg/__init__.py': '',
     'pkg/sib.py': 'v = 1\n',
     'pkg/deep/__init__.py': 'from .. import sib\n',
@@ -35,6 +37,8 @@ PROGRAMS = [
     ('main.py', 'from pb import *\ny\nz\nw\n'),
     ('main.py', 'from pa.sub import *\ny\nz\n'),
     ('main.py', 'from pall import *\nshown\n_listed\n'),
+    ('main.py', 'from pall2 import *\nalpha\nbeta\n'),
+    ('main.py', 'from pall3 import *\nalpha\nbeta\ngamma\n'),
     ('main.py', 'import pa, pb as q\npa\nq\nq.w\n'),
     ('main.py', 'import os\nos.path\nfrom os.path import join\njoin\nfrom collections import *\nOrderedDict\ndeque\n'),
     ('main.py', 'import os.path, sys as system\nos\nsystem\nsystem.path\n'),
